@@ -14,12 +14,14 @@ EXTERNAL = {
     "builtins.int": ("builtins.ValueError",),  # int("x"), int("07", 0)
     "builtins.chr": ("builtins.ValueError", "builtins.OverflowError"),  # chr(0x110000), chr(10**30)
     "decimal.Decimal": ("decimal.InvalidOperation",),  # Decimal("x")
-    "re.compile": ("re.error",),  # RegEx / Pattern rules
+    "re.compile": ("re.error", "builtins.OverflowError"),  # RegEx / Pattern rules; a{99999999999}: "the repetition number is too large"
     # the Python tokenizer, consumed eagerly by _tools.generated_tokens: unterminated strings, stray brackets and
     # backslashes give TokenError; inconsistent indentation in multi-line cells gives IndentationError/TabError
     "tokenize.generate_tokens": ("tokenize.TokenError", "builtins.SyntaxError"),
     "codecs.lookup": ("builtins.LookupError",),  # encoding property
-    "time.strptime": ("builtins.ValueError",),  # DateTime cells
+    # DateTime cells; a format with the same directive twice (rule DD.DD) makes _strptime compile a regex with a
+    # repeated group name: re.error (CPython <= 3.12), not ValueError
+    "time.strptime": ("builtins.ValueError", "re.error"),
     "builtins.eval": (ANY,),  # DistinctCount expression
     # files: a missing or unreadable file must stay an OSError (C18: exit code 3)
     "io.open": ("builtins.OSError",),  # the encoding was validated with codecs.lookup by set_property
@@ -34,6 +36,42 @@ EXTERNAL = {
     "argparse.ArgumentParser": (),
     # plugins: arbitrary code of the plugin module
     "importlib.machinery.SourceFileLoader": (),
+}
+
+# external callees that do not raise for the arguments this repository gives them - one reason each.  A callee that is in
+# neither table stops the analysis (ANALYSIS-ERROR): nothing is assumed harmless by default.
+NO_RAISE = {
+    "builtins.any": "iteration only", "builtins.all": "iteration only", "builtins.dict": "from pairs / keywords",
+    "builtins.enumerate": "lazy", "builtins.isinstance": "total", "builtins.len": "total on sized values",
+    "builtins.list": "iteration only (a raising iterator is followed through its own call)", "builtins.tuple": "iteration only",
+    "builtins.set": "elements are texts / tuples of texts (hashable)", "builtins.sorted": "elements are texts of one kind",
+    "builtins.max": "always called with two arguments", "builtins.min": "always called with two arguments",
+    "builtins.next": "token loops stop at the end marker the tokenizer always delivers: decided by the token-sequence tables "
+                     "(C01 O1.5, C02 O2.8/O2.9, C09 O9.7, C11 O11.3), where a StopIteration is a reported outcome",
+    "builtins.ord": "every call is dominated by a len(...) == 1 test or iterates the characters of a text (C01 O1.6, C11 O11.3)",
+    "builtins.range": "integer arguments", "builtins.repr": "total", "builtins.str": "total", "builtins.sum": "of integers",
+    "builtins.super": "total", "builtins.type": "total", "builtins.zip": "lazy", "builtins.getattr": "with default or a known name",
+    "builtins.hasattr": "total", "builtins.bool": "total", "builtins.print": "diagnostics",
+    "builtins.EnvironmentError": "constructor", "builtins.NameError": "constructor", "builtins.NotImplementedError": "constructor",
+    "builtins.ValueError": "constructor", "builtins.AssertionError": "constructor", "builtins.OSError": "constructor",
+    "builtins.object.__init__": "total", "builtins.Exception.__init__": "total",
+    "contextlib.closing": "wrapper", "copy.copy": "shallow copy of a Location / DataFormat",
+    "csv.reader": "dialect keywords come from _as_delimited_keywords on a validated data format: single characters, a csv "
+                  "quoting constant, booleans (C12 O12.1/O12.2); reading errors are raised while iterating (LAZY_ITERATORS)",
+    "csv.writer": "same dialect keywords as csv.reader (C12 O12.1)",
+    "datetime.datetime": "arguments are the tuple xlrd.xldate_as_tuple returned (validated by xlrd)",
+    "datetime.time": "arguments are the tuple xlrd.xldate_as_tuple returned (validated by xlrd)",
+    "fnmatch.translate": "total on texts", "keyword.iskeyword": "total",
+    "importlib.util.module_from_spec": "plugin loading: arbitrary plugin code is outside the property (ASSUMPTIONS)",
+    "importlib.util.spec_from_loader": "plugin loading", "inspect.getsourcefile": "plugin loading, diagnostics only",
+    "io.BytesIO": "argument is the bytes object read from the archive", "io.StringIO": "row buffer / text given by the caller",
+    "itertools.islice": "limit is asserted to be >= 0 by validate() / Reader (API contract)",
+    "logging.basicConfig": "set-up", "logging.getLogger": "set-up",
+    "os.makedirs": "writes: only the --create / plugin helpers, not reading a CID or data",
+    "os.path.abspath": "path text", "os.path.basename": "path text", "os.path.join": "path texts", "os.path.splitext": "path text",
+    "os.path.dirname": "path text", "os.path.exists": "total", "pathlib.Path": "path text",
+    "sys.exc_info": "total", "sys.exit": "SystemExit is the purpose", "traceback.extract_stack": "diagnostics",
+    "tokenize.ISEOF": "total", "tokenize.TokenError": "constructor", "xlrd.error_text_from_code.get": "dict look-up with default",
 }
 
 # parameter / attribute names whose class is known by convention in this repository (used only when local type
